@@ -607,6 +607,7 @@ class Interp:
     def run(self, f, args, depth=0, path=None):
         """Interpret function facts `f` on argument values; returns the list of completed Paths."""
         p = path or Path()
+        args = [self.canon_value(a) for a in args]
         fr = Frame(f, args)
         fr.depth = depth
         p.frames.append(fr)
@@ -769,6 +770,35 @@ class Interp:
                 p.result = Unknown("term " + k)
                 return p
 
+    def canon_path(self, path):
+        """the current path of an ADT that a rule names by the path it had on the pinned tree: when the type was moved to another
+        module of its crate, the one ADT of that crate with the same name stands for it"""
+        if path is None or path in self.fx.adts or "::" not in path:
+            return path
+        cache = getattr(self.fx, "_canon_adt", None)
+        if cache is None:
+            cache = self.fx._canon_adt = {}
+        if path not in cache:
+            crate, last = path.split("::")[0], path.split("::")[-1]
+            cands = [a for a in self.fx.adts if a.split("::")[0] == crate and a.split("::")[-1] == last]
+            cache[path] = cands[0] if len(cands) == 1 else path
+        return cache[path]
+
+    def canon_value(self, v, depth=0):
+        """values handed in by a rule (arguments, hook results) with ADT paths canonicalised (see canon_path)"""
+        if depth > 40:
+            return v
+        if isinstance(v, Adt):
+            if v.path and v.path not in self.fx.adts and v.path.split("::")[0] in self.fx.crates:
+                v.path = self.canon_path(v.path)
+            for k in list(v.fields):
+                v.fields[k] = self.canon_value(v.fields[k], depth + 1)
+        elif isinstance(v, Vec):
+            v.items[:] = [self.canon_value(x, depth + 1) for x in v.items]
+        elif isinstance(v, Sym) and v.adt and v.adt not in self.fx.adts and v.adt.split("::")[0] in self.fx.crates:
+            v.adt = self.canon_path(v.adt)
+        return v
+
     def _discr_descr(self, fr, t):
         return "switch@%s:bb%d" % (fr.f["key"].split("::")[-1], fr.bb)
 
@@ -778,7 +808,7 @@ class Interp:
         for h in self.hooks:
             r = h(self, p, fr, t, args)
             if r is not NotImplemented:
-                return self._finish_call(fr, t, r)
+                return self._finish_call(fr, t, self.canon_value(r) if isinstance(r, (Adt, Vec, Sym)) else r)
         key = None
         if t.get("callee_name") == "into" and t.get("callee_trait") == "core::convert::Into":
             # blanket Into: dispatch to the workspace `From` impl of the destination type
